@@ -238,6 +238,10 @@ func structCopyUnclipped(fn *ssa.Function, a *ssa.Alloc, copyStore *ssa.Store) s
 					if sx.IsNilConst(s2.Val) {
 						cut.Instrs[s2] = true
 					}
+					// full slice expression x[:n:n]: capacity == length, the next append reallocates (what slices.Clip does)
+					if sl, ok := s2.Val.(*ssa.Slice); ok && sl.Max != nil && sl.High != nil && sx.ValPath(sl.Max) == sx.ValPath(sl.High) {
+						cut.Instrs[s2] = true
+					}
 				}
 			}
 		}
@@ -429,6 +433,22 @@ func runC03(p *core.Prog, r *core.Report) {
 		if with == nil || handle == nil {
 			continue
 		}
+		// inlined views: wrappers (a per-attribute method, a loop helper, the prefix getter) are seen in place; the
+		// attribute emitters themselves — free functions taking the output buffer first — stay calls
+		var keep []*ssa.Function
+		for _, f := range p.PkgFuncs("logger") {
+			if f.Parent() == nil && f.Signature.Recv() == nil && len(f.Params) > 0 {
+				if pt := ptrTo(f.Params[0].Type()); pt != nil && pt.String() == "[]byte" {
+					for _, prm := range f.Params {
+						if typeIs(prm.Type(), "log/slog", "Attr") || typeIs(prm.Type(), "log/slog", "Value") {
+							keep = append(keep, f)
+							break
+						}
+					}
+				}
+			}
+		}
+		with, handle = p.Inl(with, keep...), p.Inl(handle, keep...)
 		emW := emitterCalls(p, with)
 		emH := emitterCalls(p, handle)
 		if len(emH) == 0 {
@@ -454,16 +474,44 @@ func runC03(p *core.Prog, r *core.Report) {
 						if ai == 0 {
 							continue // the output buffer is meant to accumulate
 						}
-						g, ok := sx.Unspill(a).(*ssa.Call)
-						if !ok {
+						// the scratch buffer: obtained from a pool getter of the module or from the pool itself
+						var g *ssa.Call
+						gname := ""
+						switch gv := sx.Unspill(a).(type) {
+						case *ssa.Call:
+							if gc := sx.StaticCallee(gv); gc != nil && getters[sx.OrigFunc(gc)] {
+								g, gname = gv, fnName(gc)
+							}
+						case *ssa.TypeAssert:
+							if pc, ok := gv.X.(*ssa.Call); ok && sx.CalleeName(pc) == "(*sync.Pool).Get" {
+								g, gname = pc, "sync.Pool.Get"
+							}
+						}
+						if g == nil {
 							continue
 						}
-						gc := sx.StaticCallee(g)
-						if gc == nil || !getters[gc] {
-							continue
-						}
-						fresh := g.Parent() == f && !sx.ReachInstr(f, e, e, sx.Cut{Instrs: map[ssa.Instruction]bool{g: true}})
-						r.Check(fresh, "C03-R4", fmt.Sprintf("%s: scratch buffer from %s is fresh for every attribute in %s", h.Name, fnName(gc), fnName(f)), p.Pos(e.Pos()), "obtained anew before each emitter call", "the scratch buffer obtained once at "+p.Pos(g.Pos())+" is reused for several attributes: the emitter leaves the previous attribute's key in it, so the second and later With attributes nest under their predecessor")
+						// refresh points: the buffer is obtained anew, or rewound (`*p = append((*p)[:0], …)`)
+						cut := sx.Cut{Instrs: map[ssa.Instruction]bool{g: true}}
+						ptr := sx.Unspill(a)
+						sx.Instrs(f, func(i2 ssa.Instruction) {
+							st, ok := i2.(*ssa.Store)
+							if !ok || sx.Unspill(st.Addr) != ptr {
+								return
+							}
+							ap, ok := st.Val.(*ssa.Call)
+							if !ok || !isBuiltin(ap, "append") {
+								return
+							}
+							if sl, ok := ap.Call.Args[0].(*ssa.Slice); ok && sl.Low == nil && sl.High != nil {
+								if k, isC := sx.ConstInt(sl.High); isC && k == 0 {
+									if ld, ok := sl.X.(*ssa.UnOp); ok && sx.Unspill(ld.X) == ptr {
+										cut.Instrs[i2] = true
+									}
+								}
+							}
+						})
+						fresh := g.Parent() == f && !sx.ReachInstr(f, e, e, cut)
+						r.Check(fresh, "C03-R4", fmt.Sprintf("%s: scratch buffer from %s is fresh for every attribute in %s", h.Name, gname, fnName(f)), p.Pos(e.Pos()), "obtained anew (or rewound) before each emitter call", "the scratch buffer obtained once at "+p.Pos(g.Pos())+" is reused for several attributes: the emitter leaves the previous attribute's key in it, so the second and later With attributes nest under their predecessor")
 					}
 				})
 			}
